@@ -130,6 +130,85 @@ def rule_alias(ctx) -> RuleResult:
     return res
 
 
+def rule_shape(ctx) -> RuleResult:
+    res = RuleResult(
+        "C12.SHAPE",
+        "C12",
+        "(a) copy_to_parent's omit list keeps out every harvested field that holds a child entity (the copy would reference the "
+        "source's child); (b) copy_property_groups remaps the members in the source group's own order; (c) the recursive "
+        "child.copy(...) calls of the copy methods do not forward the caller's **kwargs (overrides meant for the copied "
+        "entity would leak into its whole subtree)",
+        floor=8,
+    )
+    p = ctx.p
+    ent = p.cls("Entity")
+    omit0 = base_omit(ctx)
+    fam = {c.name for c in p.subclasses(ent)}
+    # (a) fields annotated with an entity class in __init__
+    seen = set()
+    for K in p.subclasses(ent):
+        omit = omit0 | class_omit(ctx, K)
+        for c in K.mro:
+            if isinstance(c, str):
+                continue
+            fn = c.methods.get("__init__")
+            if fn is None or (fn, K.name) in seen:
+                continue
+            for a in ast.walk(fn.node):
+                if isinstance(a, ast.AnnAssign) and isinstance(a.target, ast.Attribute) and unparse(a.target.value) == "self":
+                    names = {n.id for n in ast.walk(a.annotation) if isinstance(n, ast.Name)} | {
+                        x for n in ast.walk(a.annotation) if isinstance(n, ast.Constant) and isinstance(n.value, str) for x in n.value.replace("|", " ").split()}
+                    ents = sorted(names & fam)
+                    if not ents:
+                        continue
+                    fld = a.target.attr
+                    prop = fld[1:]
+                    m = K.lookup(prop)
+                    settable = bool(m and m[1] == "prop" and m[2].setter is not None)
+                    key = (c.name, fld)
+                    if key in seen:
+                        continue
+                    seen.add(key)
+                    ok = fld in omit or not settable or fld in ("_parent", "_entity_type")
+                    res.inst(f"{c.name}.{fld}: holds {ents}; omitted on copy: {fld in omit}; settable: {settable}", nontrivial=True, ok=ok)
+                    if not ok:
+                        res.find(c.name, prop, f"entity-valued field {fld} is harvested by copy_to_parent", fn.where,
+                                 f"the copy's constructor receives the source's {ents[0]} object: the copy references a child of the source, and "
+                                 "editing it through the copy rewrites the source's stored data")
+    # (b) property-group remapping order
+    cpg = p.func("Workspace.copy_property_groups")
+    comps = [a for a in ast.walk(cpg.node) if isinstance(a, ast.Assign) and unparse(a.targets[0]) == "properties" and isinstance(a.value, ast.ListComp)]
+    if not comps:
+        raise AnalysisError("Workspace.copy_property_groups: remapping comprehension not found")
+    for a in comps:
+        gen = a.value.generators[0]
+        ok = unparse(gen.iter).endswith(".properties") and not gen.ifs
+        res.inst(f"copy_property_groups: members remapped by iterating {unparse(gen.iter)}", nontrivial=True, ok=ok)
+        if not ok:
+            res.find("Workspace", "copy_property_groups", f"members remapped by iterating {unparse(gen.iter)[:40]}", f"{cpg.module.relpath}:{a.lineno}",
+                     "the copied property group lists its members in the order of the uid map, not in the source group's order: ordered groups "
+                     "(dip direction & dip, 3-D vectors) come out permuted")
+    # (c) kwargs leak
+    done = set()
+    for K in p.subclasses(ent):
+        fn = K.methods.get("copy")
+        if fn is None or fn in done or fn.node.args.kwarg is None:
+            continue
+        done.add(fn)
+        kw = fn.node.args.kwarg.arg
+        for lp in [x for x in ast.walk(fn.node) if isinstance(x, ast.For) and "children" in unparse(x.iter)]:
+            var = unparse(lp.target)
+            for c in ast.walk(lp):
+                if isinstance(c, ast.Call) and isinstance(c.func, ast.Attribute) and c.func.attr in ("copy", "copy_from_extent") and unparse(c.func.value) == var:
+                    leak = any(k.arg is None and unparse(k.value) == kw for k in c.keywords)
+                    res.inst(f"{fn.qualname}:{c.lineno} {var}.{c.func.attr}(...) forwards **{kw}: {leak}", nontrivial=True, ok=not leak)
+                    if leak:
+                        res.find(fn.cls.name, "copy", f"{var}.{c.func.attr}(...) receives the caller's **{kw}", f"{fn.module.relpath}:{c.lineno}",
+                                 "attribute overrides given for the copied entity (name=..., public=...) are applied to every descendant as well: the "
+                                 "subtree is not reproduced")
+    return res
+
+
 def _may_be_field(e, f, g) -> bool:
     """The expression may evaluate to the very object stored in self.<f>."""
     if e is None:
@@ -196,4 +275,4 @@ def rule_fresh(ctx) -> RuleResult:
     return res
 
 
-RULES = [rule_alias, rule_fresh]
+RULES = [rule_alias, rule_fresh, rule_shape]
